@@ -15,8 +15,10 @@ import (
 	"io"
 	"reflect"
 	"runtime"
+	"strings"
 	"sync"
 	"time"
+	"unsafe"
 
 	"github.com/ohler55/slip/simrt"
 )
@@ -182,6 +184,7 @@ type Stats struct {
 	Tasks          int
 	MaxRunnable    int
 	ForcedSwitches int
+	MapWindows     int // write windows opened on shared maps
 }
 
 // Sched is one simulated execution.
@@ -220,6 +223,17 @@ type Sched struct {
 	// Misuse records harness-visible runtime errors of the simulated program
 	// (unlock of unlocked mutex, ...).
 	Misuse []string
+	// MapRaces lists the conflicting accesses to one Go map by two tasks
+	// that the run exposed ("<kind> <site of the open write> <site of the
+	// other access>"), each pair once.
+	MapRaces []string
+	mapWins  map[unsafe.Pointer][]mapWin
+	raceSeen map[string]bool
+}
+
+type mapWin struct {
+	task int
+	site string
 }
 
 // New creates a scheduler.
@@ -290,6 +304,9 @@ func (s *Sched) Emit(kind, data string) int {
 		s.Events = append(s.Events, Event{Seq: s.seq, Task: id, Kind: kind, Data: data})
 	}
 	s.hash = mixHash(s.hash, fmt.Sprintf("%d|%s|%s", id, kind, data))
+	if s.Trace != nil {
+		fmt.Fprintf(s.Trace, "EVENT %d|%s|%s\n", id, kind, data)
+	}
 	return s.seq
 }
 
@@ -410,6 +427,24 @@ func (s *Sched) Run(main func()) Result {
 		s.cur = t
 		t.wake <- struct{}{}
 		<-t.exited
+	}
+	// A task that was ended inside a critical section without a deferred
+	// unlock leaves the real mutex locked; code running after the simulation
+	// (the next case, a solo run) must not find it so.
+	for m, st := range s.mus {
+		if st.held {
+			st.held = false
+			m.Unlock()
+		}
+	}
+	for m, st := range s.rws {
+		if st.held {
+			st.held = false
+			m.Unlock()
+		}
+		for ; st.readers > 0; st.readers-- {
+			m.RUnlock()
+		}
 	}
 	simrt.Install(nil)
 	return res
@@ -1078,6 +1113,91 @@ func (s *Sched) Select(cases []reflect.SelectCase, site string) (int, reflect.Va
 		return defIdx, reflect.Value{}, false
 	}
 	return idxMap[i], v, ok
+}
+
+// MapAccess implements the map access probes (rule R8). A write with window
+// set keeps a "write window" open on the map across one scheduling point; an
+// access to the same map by another task while the window is open means
+// nothing orders the two accesses, which on the real runtime is a data race
+// on the map (fatal "concurrent map writes" / "concurrent map read and map
+// write" when the runtime notices it).
+func (s *Sched) MapAccess(p unsafe.Pointer, write, window bool, site string) {
+	if s.killing {
+		return
+	}
+	for _, w := range s.mapWins[p] {
+		if w.task == s.cur.ID {
+			continue
+		}
+		kind := "write/read"
+		if write {
+			kind = "write/write"
+		}
+		key := kind + " " + w.site + " " + site
+		if !s.raceSeen[key] {
+			if s.raceSeen == nil {
+				s.raceSeen = map[string]bool{}
+			}
+			s.raceSeen[key] = true
+			s.MapRaces = append(s.MapRaces, key)
+			s.Emit("map-race", key)
+		}
+	}
+	if !write || !window || len(s.live) < 2 || !siteOn(site, s.cfg.Salt, s.cfg.YieldPct) {
+		return
+	}
+	if s.mapWins == nil {
+		s.mapWins = map[unsafe.Pointer][]mapWin{}
+	}
+	id := s.cur.ID
+	s.mapWins[p] = append(s.mapWins[p], mapWin{id, site})
+	s.Stats.MapWindows++
+	s.point("mapw:" + site)
+	ws := s.mapWins[p]
+	for i, w := range ws {
+		if w.task == id {
+			ws = append(ws[:i], ws[i+1:]...)
+			break
+		}
+	}
+	if len(ws) == 0 {
+		delete(s.mapWins, p)
+	} else {
+		s.mapWins[p] = ws
+	}
+}
+
+// RaceMap returns the map name of a MapRaces entry (that of the open write
+// window).
+func RaceMap(race string) string {
+	f := strings.Fields(race)
+	if len(f) < 2 {
+		return race
+	}
+	return f[1][strings.LastIndexByte(f[1], ':')+1:]
+}
+
+// UnknownRaces returns the (alphabetically first) map with races that is not
+// in known, and its races.
+func UnknownRaces(races, known []string) (m string, of []string) {
+	for _, r := range races {
+		rm := RaceMap(r)
+		isKnown := false
+		for _, k := range known {
+			if k == rm {
+				isKnown = true
+			}
+		}
+		if !isKnown && (m == "" || rm < m) {
+			m = rm
+		}
+	}
+	for _, r := range races {
+		if m != "" && RaceMap(r) == m {
+			of = append(of, r)
+		}
+	}
+	return
 }
 
 // Sleep blocks the task for d of simulated time.
